@@ -9,7 +9,7 @@ namespace ExprModel.Refine
 open ExprModel
 open ExprModel.Spec
 
-variable {c : Cfg} {P : Prog} {ctx : Ctx}
+variable {c : Cfg} {P : LProg} {ctx : Ctx}
 
 theorem match_re (w : World) (pat : String) (a : Val) :
     (match a with
@@ -56,20 +56,23 @@ theorem eval_matches_dyn (sc : SCfg) (m : Meta) (l r : Node) : eval sc ctx (.mat
   exact match_dyn sc.world a b
 
 theorem sim_matches_re {m : Meta} {l r : Node} {cl : List LInstr} {kk : Nat} (hl : Sim c P ctx l cl)
-    (hk : P.consts[kk]? = some (.regexp (patOf r))) :
+    (hk : P.consts[kk]? = some (.regexp (patOf r))) (hbl : BlameOK c P (.matches m true l r)) :
     Sim c P ctx (.matches m true l r) (cl ++ [li m.loc .matchesConst kk]) := by
   intro k st scs σ res σ' hcode hsc hev
+  have hev0 := hev
   rw [eval_matches_re] at hev
   rcases SM.bind_cases hev with ⟨e, hle, rfl⟩ | ⟨a, σ1, hlv, hrest⟩
   · exact hl k st scs σ _ _ hcode.left hsc hle
   · refine Reach.runs (hl k st scs σ _ _ hcode.left hsc hlv) ?_
     rw [SM.lift_apply] at hrest
     obtain ⟨rfl, rfl⟩ := Prod.mk.inj hrest
-    exact (Runs.matchesConst hcode.right hk).to_ip (by ip_arith)
+    exact (Runs.matchesConst hcode.right hk (hbl.of hev0)).to_ip (by ip_arith)
 
-theorem sim_matches_dyn {m : Meta} {l r : Node} {cl cr : List LInstr} (hl : Sim c P ctx l cl) (hr : Sim c P ctx r cr) :
+theorem sim_matches_dyn {m : Meta} {l r : Node} {cl cr : List LInstr} (hl : Sim c P ctx l cl) (hr : Sim c P ctx r cr)
+    (hbl : BlameOK c P (.matches m false l r)) :
     Sim c P ctx (.matches m false l r) (cl ++ cr ++ [li m.loc .matches_]) := by
   intro k st scs σ res σ' hcode hsc hev
+  have hev0 := hev
   rw [eval_matches_dyn] at hev
   rcases SM.bind_cases hev with ⟨e, hle, rfl⟩ | ⟨a, σ1, hlv, hrest⟩
   · exact hl k st scs σ _ _ hcode.left.left hsc hle
@@ -79,14 +82,14 @@ theorem sim_matches_dyn {m : Meta} {l r : Node} {cl cr : List LInstr} (hl : Sim 
     · refine Reach.runs (hr _ _ scs σ1 _ _ hcode.left.right hsc hrv) ?_
       rw [SM.lift_apply] at hrest2
       obtain ⟨rfl, rfl⟩ := Prod.mk.inj hrest2
-      exact (Runs.matches_ (hcode.right.cast (by ip_arith))).to_ip (by ip_arith)
+      exact (Runs.matches_ (hcode.right.cast (by ip_arith)) (hbl.of hev0)).to_ip (by ip_arith)
 
 /-! ### slices -/
 
 /-- code for the upper bound of a slice and what it leaves above the sliced value -/
-def BoundT (c : Cfg) (P : Prog) (ctx : Ctx) (ct : List LInstr) (ev : Val → SM Val) : Prop :=
+def BoundT (c : Cfg) (P : LProg) (loc : Loc) (ctx : Ctx) (ct : List LInstr) (ev : Val → SM Val) : Prop :=
   ∀ (k : Nat) (st : List Val) (scs : List Scope) (σ : SState) (a : Val) (r : R Val) (σ' : SState),
-    CodeAt P k ct → ScopesOK ctx scs → ev a σ = (r, σ') →
+    CodeAt P k ct → ScopesOK ctx scs → ev a σ = (r, σ') → RBlame P loc r →
     Runs c P (vm k (a :: st) scs σ c.budget) (outcome r (k + lsize ct) (a :: st) scs σ' c.budget)
 
 theorem SM.bind_assoc {α β γ : Type} (m : SM α) (f : α → SM β) (g : β → SM γ) :
@@ -121,21 +124,23 @@ theorem eval_slice_nn' (sc : SCfg) (h : sc.sliceToFirst = true) (m x) :
   unfold lenOf
   rw [SM.bind_assoc]
 
-theorem boundT_some {t : Node} {ct : List LInstr} (ht : Sim c P ctx t ct) :
-    BoundT c P ctx ct (fun _ => eval (specOf c) ctx t) :=
-  fun k st scs σ a r σ' hc hsc hev => ht k (a :: st) scs σ r σ' hc hsc hev
+theorem boundT_some {t : Node} {ct : List LInstr} {loc : Loc} (ht : Sim c P ctx t ct) :
+    BoundT c P loc ctx ct (fun _ => eval (specOf c) ctx t) :=
+  fun k st scs σ a r σ' hc hsc hev _ => ht k (a :: st) scs σ r σ' hc hsc hev
 
-theorem boundT_none {l : Loc} : BoundT c P ctx [li l .len] lenOf := by
-  intro k st scs σ a r σ' hc hsc hev
+theorem boundT_none {l : Loc} : BoundT c P l ctx [li l .len] lenOf := by
+  intro k st scs σ a r σ' hc hsc hev hb
   replace hev : (SM.lift (lengthV a) >>= fun n => (pure (.int .int n) : SM Val)) σ = (r, σ') := hev
   rw [SM.bind_apply, SM.lift_apply] at hev
-  refine ((Runs.len hc).to_ip (ip' := k + lsize [li l .len]) (by ip_arith)).of_eq ?_
+  have hb' : RBlame P l (lengthV a) := by
+    intro e he; rw [he] at hev; obtain ⟨rfl, rfl⟩ := Prod.mk.inj hev; exact hb e rfl
+  refine ((Runs.len hc hb').to_ip (ip' := k + lsize [li l .len]) (by ip_arith)).of_eq ?_
   cases hl : lengthV a with
   | ok n => rw [hl] at hev; obtain ⟨rfl, rfl⟩ := Prod.mk.inj hev; rfl
   | error e => rw [hl] at hev; obtain ⟨rfl, rfl⟩ := Prod.mk.inj hev; rfl
 
 /-- code for the lower bound -/
-def BoundF (c : Cfg) (P : Prog) (ctx : Ctx) (cf : List LInstr) (ev : SM Val) : Prop :=
+def BoundF (c : Cfg) (P : LProg) (ctx : Ctx) (cf : List LInstr) (ev : SM Val) : Prop :=
   ∀ (k : Nat) (st : List Val) (scs : List Scope) (σ : SState) (r : R Val) (σ' : SState),
     CodeAt P k cf → ScopesOK ctx scs → ev σ = (r, σ') →
     Runs c P (vm k st scs σ c.budget) (outcome r (k + lsize cf) st scs σ' c.budget)
@@ -148,7 +153,8 @@ theorem boundF_none {l : Loc} {kk : Nat} (hk : P.consts[kk]? = some (.int .int 0
   exact Runs.push hc hk (Reach.refl _ |>.to_ip (by ip_arith))
 
 theorem sim_slice_gen {m : Meta} {x : Node} {f t : Option Node} {cx ct cf : List LInstr}
-    {evT : Val → SM Val} {evF : SM Val} (hx : Sim c P ctx x cx) (ht : BoundT c P ctx ct evT) (hf : BoundF c P ctx cf evF)
+    {evT : Val → SM Val} {evF : SM Val} (hx : Sim c P ctx x cx) (ht : BoundT c P m.loc ctx ct evT) (hf : BoundF c P ctx cf evF)
+    (hbl : BlameOK c P (.slice m x f t))
     (heq : eval (specOf c) ctx (.slice m x f t) = (do
       let a ← eval (specOf c) ctx x
       let tv ← evT a
@@ -156,28 +162,30 @@ theorem sim_slice_gen {m : Meta} {x : Node} {f t : Option Node} {cx ct cf : List
       SM.lift (sliceV a fv tv))) :
     Sim c P ctx (.slice m x f t) (cx ++ ct ++ cf ++ [li m.loc .slice]) := by
   intro k st scs σ res σ' hcode hsc hev
+  have hev0 := hev
   rw [heq] at hev
   rcases SM.bind_cases hev with ⟨e, hxe, rfl⟩ | ⟨a, σ1, hxv, hrest⟩
   · exact hx k st scs σ _ _ hcode.left.left.left hsc hxe
   · refine Reach.runs (hx k st scs σ _ _ hcode.left.left.left hsc hxv) ?_
     rcases SM.bind_cases hrest with ⟨e, hte, rfl⟩ | ⟨tv, σ2, htv, hrest2⟩
-    · exact ht _ st scs σ1 a _ _ hcode.left.left.right hsc hte
-    · refine Reach.runs (ht _ st scs σ1 a _ _ hcode.left.left.right hsc htv) ?_
+    · exact ht _ st scs σ1 a _ _ hcode.left.left.right hsc hte (RBlame.err (hbl _ _ _ _ hev0))
+    · refine Reach.runs (ht _ st scs σ1 a _ _ hcode.left.left.right hsc htv (RBlame.ok _)) ?_
       rcases SM.bind_cases hrest2 with ⟨e, hfe, rfl⟩ | ⟨fv, σ3, hfv, hrest3⟩
       · exact hf _ _ scs σ2 _ _ (hcode.left.right.cast (by ip_arith)) hsc hfe
       · refine Reach.runs (hf _ _ scs σ2 _ _ (hcode.left.right.cast (by ip_arith)) hsc hfv) ?_
         rw [SM.lift_apply] at hrest3
         obtain ⟨rfl, rfl⟩ := Prod.mk.inj hrest3
-        exact (Runs.slice (hcode.right.cast (by ip_arith))).to_ip (by ip_arith)
+        exact (Runs.slice (hcode.right.cast (by ip_arith)) (hbl.of hev0)).to_ip (by ip_arith)
 
 /-! ### conditional -/
 
 theorem sim_cond {m : Meta} {cn a b : Node} {cc ca cb : List LInstr}
-    (hc : Sim c P ctx cn cc) (ha : Sim c P ctx a ca) (hb : Sim c P ctx b cb) :
+    (hc : Sim c P ctx cn cc) (ha : Sim c P ctx a ca) (hb : Sim c P ctx b cb) (hbl : BlameOK c P (.cond m cn a b)) :
     Sim c P ctx (.cond m cn a b)
       (cc ++ [li m.loc .jumpIfFalse (1 + lsize ca + 3), li m.loc .pop] ++ ca ++
         [li m.loc .jump (1 + lsize cb), li m.loc .pop] ++ cb) := by
   intro k st scs σ res σ' hcode hsc hev
+  have hev0 := hev
   rw [eval_cond] at hev
   have hcc := hcode.left.left.left.left
   have hj := hcode.left.left.left.right
@@ -205,14 +213,15 @@ theorem sim_cond {m : Meta} {cn a b : Node} {cc ca cb : List LInstr}
     · have hnb : ∀ bb, v ≠ .bool bb := fun bb h => hbv ⟨bb, h⟩
       rw [asBool_other hnb, SM.bind_apply, SM.fail_apply] at hrest
       obtain ⟨rfl, rfl⟩ := Prod.mk.inj hrest
-      exact Runs.jumpIf_err (.inr rfl) hj hnb
+      exact Runs.jumpIf_err (.inr rfl) hj hnb (hbl _ _ _ _ hev0)
 
 /-! ### pointer -/
 
 theorem sim_pointer {m : Meta} {car ci : Nat} (hcar : P.consts[car]? = some (.str "array"))
-    (hci : P.consts[ci]? = some (.str "i")) :
+    (hci : P.consts[ci]? = some (.str "i")) (hbl : BlameOK c P (.pointer m)) :
     Sim c P ctx (.pointer m) [li m.loc .load car, li m.loc .load ci, li m.loc .index] := by
   intro k st scs σ res σ' hcode hsc hev
+  have hev0 := hev
   rw [eval_pointer] at hev
   cases ctx with
   | nil =>
@@ -221,7 +230,7 @@ theorem sim_pointer {m : Meta} {car ci : Nat} (hcar : P.consts[car]? = some (.st
     simp only [SM.fail_apply] at hev
     obtain ⟨rfl, rfl⟩ := Prod.mk.inj hev
     refine Runs.load_nil hcode hcar (Runs.load_nil hcode.tail3 hci ?_)
-    exact (Runs.index hcode.tail3.tail3 (x := .nil) (y := .nil))
+    exact (Runs.index hcode.tail3.tail3 (x := .nil) (y := .nil) (RBlame.err (hbl _ _ _ _ hev0)))
   | cons hd tl =>
     obtain ⟨coll, i⟩ := hd
     simp only [ScopesOK] at hsc
@@ -230,6 +239,6 @@ theorem sim_pointer {m : Meta} {car ci : Nat} (hcar : P.consts[car]? = some (.st
     obtain ⟨rfl, rfl⟩ := Prod.mk.inj hev
     refine Runs.load hcode hcar (Runs.load hcode.tail3 hci ?_)
     rw [ha, hi]
-    exact (Runs.index hcode.tail3.tail3).to_ip (by ip_arith)
+    exact (Runs.index hcode.tail3.tail3 (hbl.of hev0)).to_ip (by ip_arith)
 
 end ExprModel.Refine
